@@ -93,6 +93,28 @@ func c28GenLocktime(t *rapid.T) (uint32, string) {
 	}
 }
 
+// embedded data: mostly random, but the degenerate patterns (all zero, all
+// ones, a single set bit) are over-represented - the value is opaque to the
+// script, a present all-zero extra data is still present.
+func c28Pattern(t *rapid.T, n int, label string) []byte {
+	switch rapid.IntRange(0, 9).Draw(t, label+"Pattern") {
+	case 0, 1:
+		return make([]byte, n)
+	case 2:
+		b := make([]byte, n)
+		for i := range b {
+			b[i] = 0xff
+		}
+		return b
+	case 3:
+		b := make([]byte, n)
+		b[rapid.IntRange(0, n-1).Draw(t, label+"BitAt")] = 1 << uint(rapid.IntRange(0, 7).Draw(t, label+"Bit"))
+		return b
+	default:
+		return rapid.SliceOfN(rapid.Byte(), n, n).Draw(t, label)
+	}
+}
+
 func c28GenDeposit(t *rapid.T) *c28Deposit {
 	g := &c28Deposit{}
 	g.wallet = c28Key(t, "walletKey")
@@ -101,7 +123,7 @@ func c28GenDeposit(t *rapid.T) *c28Deposit {
 	if g.refund.D.Cmp(g.wallet.D) == 0 || g.third.D.Cmp(g.wallet.D) == 0 || g.third.D.Cmp(g.refund.D) == 0 {
 		t.Skip("colliding keys")
 	}
-	copy(g.depositor[:], rapid.SliceOfN(rapid.Byte(), 20, 20).Draw(t, "depositor"))
+	copy(g.depositor[:], c28Pattern(t, 20, "depositor"))
 	addr := hex.EncodeToString(g.depositor[:])
 	switch rapid.IntRange(0, 2).Draw(t, "addressForm") {
 	case 0:
@@ -116,11 +138,11 @@ func c28GenDeposit(t *rapid.T) *c28Deposit {
 		WalletPublicKeyHash: c28Hash160(g.wallet.PubKey().SerializeCompressed()),
 		RefundPublicKeyHash: c28Hash160(g.refund.PubKey().SerializeCompressed()),
 	}
-	copy(g.d.BlindingFactor[:], rapid.SliceOfN(rapid.Byte(), 8, 8).Draw(t, "blinding"))
+	copy(g.d.BlindingFactor[:], c28Pattern(t, 8, "blinding"))
 	binary.LittleEndian.PutUint32(g.d.RefundLocktime[:], g.locktime)
 	if rapid.Bool().Draw(t, "extraData") {
 		var e [32]byte
-		copy(e[:], rapid.SliceOfN(rapid.Byte(), 32, 32).Draw(t, "extra"))
+		copy(e[:], c28Pattern(t, 32, "extra"))
 		g.d.ExtraData = &e
 	}
 	return g
@@ -164,6 +186,17 @@ func c28GenTxLocktime(t *rapid.T, l uint32) (uint32, string) {
 
 var c28Who = []string{"wallet", "refund", "third"}
 
+func c28ExtraClass(e *[32]byte) string {
+	switch {
+	case e == nil:
+		return "absent"
+	case *e == [32]byte{}:
+		return "all-zero"
+	default:
+		return "present"
+	}
+}
+
 func TestVerif_C28_SpendConditions(t *testing.T) {
 	st := verifkit.New("C28", "TestVerif_C28_SpendConditions")
 	defer st.Flush()
@@ -173,13 +206,21 @@ func TestVerif_C28_SpendConditions(t *testing.T) {
 		if err != nil {
 			t.Fatalf("Script() failed for a well-formed deposit: %v", err)
 		}
+		// The UTXO is the one the depositor funded: P2SH / P2WSH of the script
+		// the Bridge defines for these parameters (the documented template),
+		// NOT of whatever Script() returns - the wallet presents Script() as
+		// redeem / witness script and must be able to unlock that UTXO.
+		funded, err := c28Template(g.depositor, g.d.ExtraData, g.d.BlindingFactor, g.d.WalletPublicKeyHash, g.d.RefundPublicKeyHash, g.d.RefundLocktime)
+		if err != nil {
+			t.Fatalf("template: %v", err)
+		}
 		witness := rapid.Bool().Draw(t, "p2wsh")
 		var lock []byte
 		if witness {
-			h := sha256.Sum256(script)
+			h := sha256.Sum256(funded)
 			lock = append([]byte{0x00, 0x20}, h[:]...)
 		} else {
-			h := c28Hash160(script)
+			h := c28Hash160(funded)
 			lock = append(append([]byte{0xa9, 0x14}, h[:]...), 0x87)
 		}
 		amount := rapid.Int64Range(1, 2_100_000_000_000_000).Draw(t, "amount")
@@ -281,7 +322,7 @@ func TestVerif_C28_SpendConditions(t *testing.T) {
 		}
 		boundary := pubOf == "refund" && signer == "refund" && (txLtClass == "at" || txLtClass == "one-before" || txLtClass == "one-after") && g.spendableDomain
 		st.Case(boundary, desc, "path:"+pubOf+"/"+signer, "verdict:"+verdict, "locktime:"+g.ltClass, "tx-locktime:"+txLtClass,
-			fmt.Sprintf("sequence:%x", sequence), fmt.Sprintf("p2wsh:%v", witness), fmt.Sprintf("extra-data:%v", g.d.ExtraData != nil))
+			fmt.Sprintf("sequence:%x", sequence), fmt.Sprintf("p2wsh:%v", witness), "extra-data:"+c28ExtraClass(g.d.ExtraData))
 	})
 }
 
@@ -355,7 +396,7 @@ func TestVerif_C28_Embedding(t *testing.T) {
 		copy(other.BlindingFactor[:], rapid.SliceOfN(rapid.Byte(), 8, 8).Draw(t, "otherBlinding"))
 		if rapid.Bool().Draw(t, "otherExtra") {
 			var e [32]byte
-			copy(e[:], rapid.SliceOfN(rapid.Byte(), 32, 32).Draw(t, "otherExtraData"))
+			copy(e[:], c28Pattern(t, 32, "otherExtraData"))
 			other.ExtraData = &e
 		} else {
 			other.ExtraData = nil
@@ -382,6 +423,6 @@ func TestVerif_C28_Embedding(t *testing.T) {
 			t.Fatalf("script has %d bytes, expected %d", len(script), wantLen)
 		}
 		st.Case(g.d.ExtraData != nil != (other.ExtraData != nil), fmt.Sprintf("depositor=%s blinding=%x extra=%v L=%d other-extra=%v", g.d.Depositor, g.d.BlindingFactor, g.d.ExtraData != nil, g.locktime, other.ExtraData != nil),
-			fmt.Sprintf("extra-data:%v", g.d.ExtraData != nil), "locktime:"+g.ltClass)
+			"extra-data:"+c28ExtraClass(g.d.ExtraData), "locktime:"+g.ltClass)
 	})
 }
